@@ -14,6 +14,14 @@ from json_to_models.dynamic_typing import (
 from . import driver, mme, oracle
 
 
+import unicodedata
+
+
+def nfkc(s):
+    """Python normalises identifiers to NFKC when compiling: compare names in that form"""
+    return unicodedata.normalize("NFKC", s) if isinstance(s, str) else s
+
+
 def exc_site(e: BaseException):
     """innermost json_to_models frame of the traceback: ('file.py', 'function')"""
     tb = traceback.extract_tb(e.__traceback__)
@@ -124,14 +132,14 @@ class Analysis:
         fw = self.opts["framework"]
         by_name = {}
         for info in self.tab.values():
-            by_name.setdefault(info.name, []).append(info)
+            by_name.setdefault(nfkc(info.name), []).append(info)
         self.cls_by_index = {}
         self.info_by_index = {}
         self.gens = {}
         kw = driver.generator_kwargs(self.opts)
         ok = True
         for ix, m in reg.models_map.items():
-            infos = by_name.get(m.name, [])
+            infos = by_name.get(nfkc(m.name), [])
             if len(infos) != 1:
                 ok = False
                 continue
@@ -144,7 +152,7 @@ class Analysis:
                 continue
             n2k = {}
             for key in m.type:
-                n2k.setdefault(self.gens[ix].convert_field_name(key), []).append(key)
+                n2k.setdefault(nfkc(self.gens[ix].convert_field_name(key)), []).append(key)
             self.name_to_key[self.cls_by_index[ix]] = n2k
         return ok
 
@@ -296,7 +304,7 @@ class Analysis:
             for key, meta_t in m.type.items():
                 if pyd and (meta_t is Unknown or meta_t is Null):
                     continue
-                name = self.gens[ix].convert_field_name(key)
+                name = nfkc(self.gens[ix].convert_field_name(key))
                 try:
                     T = ir_to_typing(meta_t, style, self.cls_by_index)
                 except KeyError as e:
